@@ -62,7 +62,7 @@ func gen(g *mon.Gen) {
 		g.Emit(&Case{Mask: i % 4, Seed: rng.Int63(), K: 0, Terminal: "shutdown-at-start"})
 	}
 	for i := 0; i < g.Pick(4, 40); i++ {
-		g.Emit(&Case{Mask: 0, Seed: rng.Int63(), K: 0, Terminal: "restart"})
+		g.Emit(&Case{Mask: i % 2, Seed: rng.Int63(), K: 0, Terminal: "restart"}) // odd: a first Shutdown attempt that times out comes before the real one
 	}
 	per := g.Pick(6, 200)
 	for mask := 0; mask < 16; mask++ {
@@ -359,6 +359,14 @@ func runRestart(c *Case, r *mon.Rec, rng *rand.Rand) {
 		b, _ := srvx.ReadN(cliA, len(wantA), 4*time.Second)
 		gotA <- b
 	}()
+	if c.Mask&1 == 1 {
+		// a first Shutdown that gives up after 50 ms (the handler is still blocked); the application then tries again
+		// with more patience - that second call has to do the waiting the first one could not finish
+		sctx0, sc0 := context.WithTimeout(context.Background(), 50*time.Millisecond)
+		e0 := s.Shutdown(sctx0)
+		sc0()
+		r.Cover("shutdown", fmt.Sprintf("first-attempt-before-retry: %v", e0))
+	}
 	var shutErr error
 	var shutRet int64
 	shutDone := make(chan struct{})
